@@ -197,8 +197,18 @@ def molecules(rng, nrand=3):
     for _ in range(nrand):
         n = rng.randint(3, 8)
         atoms = []
+        import math
         while len(atoms) < n:
-            p = [rng.gauss(0, 1.1) for _ in range(3)]
+            # a bonded cluster: every new atom 0.95-1.6 A from an earlier one (scattered atoms are not a molecule: the radial
+            # search from their centroid need not find a single surface)
+            if atoms:
+                b = rng.choice(atoms)[1]
+                v = [rng.gauss(0, 1) for _ in range(3)]
+                s = math.sqrt(sum(x * x for x in v))
+                dd = rng.uniform(0.95, 1.6)
+                p = [b[c] + v[c] / s * dd for c in range(3)]
+            else:
+                p = [rng.gauss(0, 0.5) for _ in range(3)]
             if all(sum((p[c] - a[c]) ** 2 for c in range(3)) > 0.8 for _, a in atoms):
                 atoms.append((rng.choice([1, 6, 7, 8]), p))
         out.append([{"z": z, "p": [q(v) for v in p]} for z, p in atoms])
